@@ -88,8 +88,14 @@ Allowed(w, s) == ~Pairs \/ \A t \in StylesOf(wbs[w].given) : Near(s, t)
 CellPos == {<<1, 1>>, <<1, 2>>, <<2, 2>>}
 RowPos  == {2}
 ColPos  == {2, 3}
-RowDims == {<<"0", FALSE>>, <<"15.75", FALSE>>, <<"0", TRUE>>}
-ColDims == {<<"8.38", FALSE>>, <<"12.5", FALSE>>, <<"12.5", TRUE>>}
+RD(ht, ch, ord, hid, tb, dd) == [ht |-> ht, ch |-> ch, ord |-> ord, hid |-> hid, tb |-> tb, dd |-> dd]
+CD(w, hid, bf) == [w |-> w, hid |-> hid, bf |-> bf]
+(* style only / height as set_height leaves it / hidden / a height WITHOUT customHeight (an auto-fitted row) /  *)
+(* set_custom_height(false) before set_height, thickBot and dyDescent                                          *)
+RowDims == {RD("0", FALSE, "hc", FALSE, FALSE, "0"), RD("15.75", TRUE, "hc", FALSE, FALSE, "0"),
+            RD("0", FALSE, "hc", TRUE, FALSE, "0"), RD("15.75", FALSE, "hc", FALSE, FALSE, "0"),
+            RD("15.75", FALSE, "ch", FALSE, TRUE, "0.25")}
+ColDims == {CD("8.38", FALSE, FALSE), CD("12.5", FALSE, FALSE), CD("12.5", TRUE, FALSE), CD("12.5", FALSE, TRUE)}
 
 (* ---- wide pools for simulation: one random style per draw ---------------------------------------- *)
 Names == {"Arial", "Arial1", "Arial11", "Calibri", "Verdana", "Times New Roman"}
@@ -122,8 +128,9 @@ StylePool(z) == IF Wide THEN {RandStyle(z)} ELSE IF Small THEN ImportPalette ELS
 CellPool(z)  == IF Wide THEN {<<R(1..6), R(1..6)>>} ELSE IF Small THEN {<<1, 1>>, <<1, 2>>} ELSE CellPos
 RowPool(z)   == IF Wide THEN {R(1..8)} ELSE IF Small THEN {} ELSE RowPos
 ColPool(z)   == IF Wide THEN {R(1..8)} ELSE IF Small THEN {} ELSE ColPos
-RowDimPool(z) == IF Wide THEN {<<R({"0", "15.75", "30", "409.5"}), R(BOOLEAN)>>} ELSE RowDims
-ColDimPool(z) == IF Wide THEN {<<R({"8.38", "12.5", "0.5", "255"}), R(BOOLEAN)>>} ELSE ColDims
+RowDimPool(z) == IF Wide THEN {RD(R({"0", "15.75", "30", "409.5"}), R(BOOLEAN), R({"hc", "ch"}), R(BOOLEAN), R(BOOLEAN), R({"0", "0", "0.25"}))}
+                 ELSE RowDims
+ColDimPool(z) == IF Wide THEN {CD(R({"8.38", "12.5", "0.5", "255"}), R(BOOLEAN), R(BOOLEAN))} ELSE ColDims
 
 (* import items: target carrier <- source cell *)
 Item(k, r, c, r2, c2) == [k |-> k, r |-> r, c |-> c, r2 |-> r2, c2 |-> c2]
@@ -149,11 +156,12 @@ Assign(w) ==
           /\ Allowed(w, s) /\ SetCell(w, p[1], p[2], s)
           /\ Log(AssignRec(w, <<[r |-> p[1], c |-> p[2], sty |-> s]>>, <<>>, <<>>))
      \/ \E r \in RowPool(nassign), d \in RowDimPool(nassign), s \in StylePool(nassign) :
-          /\ Allowed(w, s) /\ SetRow(w, r, d[1], d[2], s)
-          /\ Log(AssignRec(w, <<>>, <<[r |-> r, ht |-> d[1], hid |-> d[2], sty |-> s]>>, <<>>))
+          /\ Allowed(w, s) /\ SetRow(w, r, d, s)
+          /\ Log(AssignRec(w, <<>>, <<[r |-> r, ht |-> d.ht, ch |-> d.ch, ord |-> d.ord, hid |-> d.hid, tb |-> d.tb, dd |-> d.dd,
+                                       sty |-> s]>>, <<>>))
      \/ \E c \in ColPool(nassign), d \in ColDimPool(nassign), s \in StylePool(nassign) :
-          /\ Allowed(w, s) /\ SetCol(w, c, d[1], d[2], s)
-          /\ Log(AssignRec(w, <<>>, <<>>, <<[c |-> c, w |-> d[1], hid |-> d[2], sty |-> s]>>))
+          /\ Allowed(w, s) /\ SetCol(w, c, d, s)
+          /\ Log(AssignRec(w, <<>>, <<>>, <<[c |-> c, w |-> d.w, hid |-> d.hid, bf |-> d.bf, sty |-> s]>>))
 (* get_style(..).clone() of a cell of workbook v, set_style on a carrier of workbook w *)
 DoImport(w, v) ==
   /\ w # v /\ phase[w] = "edit" /\ phase[v] = "edit" /\ nimport < MaxImport /\ nsave[w] < MaxSaves
